@@ -15,6 +15,9 @@ def generate(seed, tier):
     base = 25000 + ((os.getpid() * 29 + int(time.time())) % 900)
     lines.append("race service %d %d # spec=C09 eq ok" % (base, 500 if tier == "quick" else 3000))
     g.count("real_service_runs")
+    # a host-name TCP backend whose addresses come and go while requests flow (dial / close under membership changes)
+    lines.append("race tcpchurn %d %d # spec=C09 eq ok" % (base + 100, 700 if tier == "quick" else 4000))
+    g.count("tcp_membership_churn_runs")
     # the three separately locked steps of a dispatch racing with membership changes at full speed
     for _ in range(2 if tier == "quick" else 10):
         lines.append("rr race %d %d # spec=C09 eq ok" % (500 if tier == "quick" else 3000, g.rint(1, 10**6)))
